@@ -558,6 +558,23 @@ pub fn h_c02_track<const N: usize, S: Nd>(nd: &mut S, tag: u8) -> Out {
     Out::Pass
 }
 
+
+/// C14: `Decoder::from_buf` on ANY buffer (arbitrary stale contents and length) is a new decoder with an empty buffer.
+pub fn h_c14_from_buf<const N: usize, S: Nd>(nd: &mut S) -> Out {
+    let raw: [u8; N] = nd.arr();
+    let n = nd.usize();
+    assume!(n <= N);
+    let d = Decoder::from_buf(ArrayBuf::<N>::verif_from_raw(raw, n));
+    let s = d.verif_state();
+    check!(is_fresh(&s, d.verif_buf().len()), "C14: Decoder::from_buf does not start like a new decoder (stale buffer contents kept?)");
+    let f = Decoder::<ArrayBuf<N>>::new().verif_state();
+    check!(norm(s) == norm(f), "C14: Decoder::from_buf state differs from Decoder::new");
+    cover!(n > 0, "witness: non-empty buffer handed to from_buf");
+    Out::Pass
+}
+pub fn h_c14_from_buf4<S: Nd>(nd: &mut S) -> Out { h_c14_from_buf::<4, S>(nd) }
+proof!(c14_from_buf4, 10, h_c14_from_buf4);
+
 // ------------------------------------------------------------------------------------------------
 // instantiations
 // ------------------------------------------------------------------------------------------------
@@ -632,5 +649,6 @@ pub fn register(v: &mut Vec<(&'static str, fn(&mut Replay) -> Out)>) {
     reg!(c14_step4_t0 = h_c14_step4_t0, c14_step4_t1 = h_c14_step4_t1, c14_step4_t2 = h_c14_step4_t2, c14_step4_t3 = h_c14_step4_t3, c14_step4_t4 = h_c14_step4_t4);
     reg!(c02_accept4_t0 = h_c02_accept4_t0, c02_accept4_t1 = h_c02_accept4_t1, c02_accept4_t2 = h_c02_accept4_t2, c02_accept4_t3 = h_c02_accept4_t3, c02_accept4_t4 = h_c02_accept4_t4);
     reg!(c02_track4_t1 = h_c02_track4_t1, c02_track4_t2 = h_c02_track4_t2, c02_track4_t3 = h_c02_track4_t3);
+    reg!(c14_from_buf4 = h_c14_from_buf4);
     reg!(c01_accept4 = h_c01_accept4, fin_reset4 = h_fin_reset4, fin_reset0 = h_fin_reset0, c08_matcher4 = h_c08_matcher4, c14_look_crc4 = h_c14_look_crc4, c14_done4 = h_c14_done4);
 }
